@@ -236,13 +236,15 @@ def r4_progress(rep, facts, g):
     if not facts.has_body('toml_write::string::write_toml_value'):
         return
     b = facts.body('toml_write::string::write_toml_value')
-    shr = [n for n in walk(b['body']) if n.get('k') == 'assign' and (peel(n['lhs']).get('path') or '').startswith('stream') and any(y.get('k') == 'index' for y in walk(n['rhs']))]
-    guard = False
-    for n in walk(b['body']):
-        if n.get('k') == 'if' and any(y.get('k') == 'mcall' and y.get('name') == 'is_none' for y in walk(n['cond'])) and any(y.get('k') == 'mcall' and y.get('name') == 'is_empty' for y in walk(n['cond'])):
-            guard = any(id(s) in [id(z) for z in walk(n['then'])] for s in shr)
-    rep.check(R, 'write_toml_value|stream-shrinks', len(shr) == 2 and guard, 'stream = &stream[end..]; if nothing was escaped and input remains, one byte is written as \\u and skipped',
-              'the escaping loop may go round without shortening the stream', facts.loc(b))
+    # decided by evaluating the writer with every loop iteration checked for a variant (some string / iterator it works on got strictly shorter)
+    from .rules_c10 import writer_progress
+    from .den import Unanalysable as _UN
+    try:
+        n_runs, problems = writer_progress(facts)
+        rep.check(R, 'write_toml_value|stream-shrinks', not problems, f'{n_runs} evaluations (every ASCII byte, multi-byte characters, pairs; four styles): every loop iteration shortens its input, no panic',
+                  'the escaping loop may go round without shortening the stream, or panics: ' + '; '.join(problems[:3]), facts.loc(b))
+    except _UN as e:
+        rep.incomplete(R, 'write_toml_value|stream-shrinks', f'cannot evaluate write_toml_value: {e}', facts.loc(b))
 
 
 def r5_from_slice(rep, facts):
